@@ -23,8 +23,11 @@ def _is_mut_ref(ty):
 
 
 class Origins:
-    def __init__(self, fn):
+    def __init__(self, fn, opaque=()):
+        """opaque: callee names whose result does not inherit the labels of the arguments (declared
+        information barriers, e.g. a function returning only a &'static type name)"""
         self.fn = fn
+        self.opaque = tuple(opaque)
         n = len(fn.locals)
         self.n = n
         # ---- collect defs
@@ -61,7 +64,7 @@ class Origins:
                             for op in rv["ops"]:
                                 pl = op_place(op)
                                 if pl is not None:
-                                    cur |= self.alias[pl["l"]]
+                                    cur |= self._alias_of_place(pl)
                         elif rv["k"] == "agg":
                             for op in rv["ops"]:
                                 pl = op_place(op)
@@ -118,22 +121,41 @@ class Origins:
                     elif d[0] == "call":
                         t = d[2]
                         cur.add(("call", callee(t), d[1]))
+                        if callee(t) in self.opaque:
+                            continue
                         for op in t["args"]:
                             cur |= self.of_operand(op)
                 if len(cur) != before:
                     changed = True
 
-    # ---- flow-restricted query: only definitions that can reach block `bb`
-    def at(self, op_or_place, bb):
-        """labels of an operand/place as seen at block bb: a definition is considered only if its block can
-        reach bb in the CFG (parameters always).  Removes the typical flow-insensitive blur where a later
-        push into a container pollutes an earlier pop from it."""
+    def _alias_of_place(self, pl):
+        """alias bases of a read place; field-sensitive when the local is only ever built by aggregates"""
+        fld = self._first_field(pl)
+        if fld is not None:
+            ds = self.defs[pl["l"]]
+            outs = []
+            for d in ds:
+                fl = self._agg_fields(d)
+                if not fl or fld not in fl:
+                    outs = None
+                    break
+                op = d[4]["ops"][fl[fld]]
+                p2 = op_place(op)
+                outs.append(self.alias[p2["l"]] if p2 is not None else set())
+            if outs is not None and ds:
+                r = set()
+                for o_ in outs:
+                    r |= o_
+                return r
+        return self.alias[pl["l"]]
+
+    # ---- flow-sensitive query
+    def _can(self, bb):
+        """blocks that reach bb through at least one edge"""
         from . import cfg as _cfg
-        fn = self.fn
-        key = ("can", bb)
-        cache = self.__dict__.setdefault("_can", {})
+        cache = self.__dict__.setdefault("_can_cache", {})
         if bb not in cache:
-            preds = _cfg.preds(fn)
+            preds = _cfg.preds(self.fn)
             seen = set()
             work = [bb]
             while work:
@@ -142,39 +164,176 @@ class Origins:
                     if p_ not in seen:
                         seen.add(p_)
                         work.append(p_)
-            cache[bb] = seen          # blocks that reach bb through at least one edge
-        can_strict = cache[bb]
-        can = can_strict | {bb}
-        memo = {}
+            cache[bb] = seen
+        return cache[bb]
 
-        def local_labels(l, stack):
-            if l in memo:
-                return memo[l]
-            if l in stack:
-                return set()
-            stack = stack | {l}
-            out = set()
+    def _visible(self, d, b):
+        """definition d is visible at the end of block b"""
+        if d[0] == "param":
+            return True
+        if d[0] == "assign":
+            return d[1] == b or d[1] in self._can(b)
+        return d[1] in self._can(b)     # calls terminate their block: visible only after an edge
+
+    @staticmethod
+    def _first_field(p_):
+        """name of the field selected directly on the local (no deref before it), else None"""
+        if p_["p"] and isinstance(p_["p"][0], dict) and "f" in p_["p"][0]:
+            return p_["p"][0]["f"]
+        return None
+
+    def _own_and_uses(self, d, only_operand=None):
+        """(own labels, [(local, first_field|None)] used) of one definition; with only_operand=k the
+        definition is restricted to the k-th operand of an aggregate (field-sensitive sub-node)"""
+        own = set()
+        uses = []
+
+        def place(p_):
+            uses.append((p_["l"], self._first_field(p_)))
+            for e in p_["p"]:
+                if isinstance(e, dict):
+                    if "f" in e:
+                        own.add(("field", e["f"]))
+                    elif "v" in e:
+                        own.add(("variant", e["v"]))
+                    elif "i" in e:
+                        uses.append((e["i"], None))
+            if "*" in p_["p"]:
+                uses.extend((x, None) for x in self.alias[p_["l"]])
+
+        def operand(op):
+            pl = op_place(op)
+            if pl is not None:
+                place(pl)
+            else:
+                own.update(self.of_operand(op))
+
+        if d[0] == "param":
+            own.add(("param", d[1]))
+        elif d[0] == "assign":
+            rv = d[4]
+            k = rv["k"]
+            if k == "cast":
+                own.add(("cast", rv["cast"], rv["from"], rv["to"]))
+            elif k == "bin":
+                own.add(("bin", rv["op"]))
+            elif k == "un":
+                own.add(("un", rv["op"]))
+            elif k == "agg":
+                own.add(("agg", rv.get("adt"), rv.get("variant"), d[1]))
+            elif k == "discr":
+                own.add(("discr",))
+            elif k == "other":
+                own.add(("other",))
+            ops_ = rv.get("ops", ())
+            if only_operand is not None:
+                ops_ = [ops_[only_operand]]
+            for o_ in ops_:
+                operand(o_)
+            if "place" in rv:
+                place(rv["place"])
+        elif d[0] == "call":
+            t_ = d[2]
+            own.add(("call", callee(t_), d[1]))
+            if callee(t_) not in self.opaque:
+                for a in t_["args"]:
+                    operand(a)
+        return own, uses
+
+    @staticmethod
+    def _agg_fields(d):
+        """field names of an aggregate definition of a whole local: {name: operand index}"""
+        if d[0] != "assign" or d[3]["p"] or d[4]["k"] != "agg":
+            return None
+        rv = d[4]
+        names = rv.get("fields") or []
+        if rv.get("adt") in ("(tuple)", "{closure}") or not names:
+            names = [str(i) for i in range(len(rv["ops"]))]
+        if len(names) != len(rv["ops"]):
+            return None
+        return {n: i for i, n in enumerate(names)}
+
+    def _flow(self):
+        """labels of every definition, operands evaluated at the definition's own block (worklist fixpoint
+        over the definition graph; may-analysis without kills).  Aggregates get one sub-node per field so
+        that `_x = (a, b); use(_x.0)` sees only `a`."""
+        if "_dl" in self.__dict__:
+            return
+        defs = []          # (local, d, only_operand)
+        by_local = [[] for _ in range(self.n)]
+        sub = {}           # (def index, field name) -> node index
+        for l in range(self.n):
             for d in self.defs[l]:
-                if d[0] == "param":
-                    out.add(("param", d[1]))
-                elif d[0] == "assign":
-                    if d[1] not in can:
-                        continue
-                    out |= rvalue(d[4], d[1], stack)
-                elif d[0] == "call":
-                    # a call is the terminator of its block: its effects are visible at bb only after an edge
-                    if d[1] not in can_strict:
-                        continue
-                    t_ = d[2]
-                    out.add(("call", callee(t_), d[1]))
-                    for a in t_["args"]:
-                        out |= operand(a, stack)
-            if len(stack) == 1:
-                memo[l] = out
+                by_local[l].append(len(defs))
+                defs.append((l, d, None))
+        n_whole = len(defs)
+        for i in range(n_whole):
+            l, d, _ = defs[i]
+            fl = self._agg_fields(d)
+            if fl:
+                for name, k in fl.items():
+                    sub[(i, name)] = len(defs)
+                    defs.append((l, d, k))
+        own = []
+        preds = []
+        for i, (l, d, k) in enumerate(defs):
+            o_, uses = self._own_and_uses(d, k)
+            own.append(o_)
+            ps = []
+            b = d[1] if d[0] != "param" else None
+            for u, fld in set(uses):
+                for j in by_local[u]:
+                    d2 = defs[j][1]
+                    if b is None or self._visible(d2, b):
+                        if fld is not None and (j, fld) in sub:
+                            ps.append(sub[(j, fld)])
+                        else:
+                            ps.append(j)
+            preds.append(ps)
+        lab = [set(x) for x in own]
+        succs = [[] for _ in defs]
+        for i, ps in enumerate(preds):
+            for j in ps:
+                succs[j].append(i)
+        work = list(range(len(defs)))
+        inq = [True] * len(defs)
+        while work:
+            j = work.pop()
+            inq[j] = False
+            lj = lab[j]
+            for i in succs[j]:
+                li = lab[i]
+                before = len(li)
+                li |= lj
+                if len(li) != before and not inq[i]:
+                    inq[i] = True
+                    work.append(i)
+        self._dl = lab
+        self._defs_flat = defs
+        self._by_local = by_local
+        self._sub = sub
+
+    def at(self, op_or_place, bb):
+        """labels of an operand/place as seen at the end of block bb.  A definition is considered only if its
+        block can reach bb (assignments of bb itself included, calls only through at least one edge), and the
+        operands of that definition were in turn evaluated at the definition's own block.  This removes the
+        flow-insensitive blur where a later write to a container pollutes an earlier read from it.
+        Field-sensitive for aggregates built in the function.  Parameters are always visible.
+        Still a may-analysis (no kills)."""
+        self._flow()
+
+        def local_labels(l, fld=None):
+            out = set()
+            for j in self._by_local[l]:
+                if self._visible(self._defs_flat[j][1], bb):
+                    if fld is not None and (j, fld) in self._sub:
+                        out |= self._dl[self._sub[(j, fld)]]
+                    else:
+                        out |= self._dl[j]
             return out
 
-        def place(p_, stack):
-            out = set(local_labels(p_["l"], stack))
+        def place(p_):
+            out = local_labels(p_["l"], self._first_field(p_))
             for e in p_["p"]:
                 if isinstance(e, dict):
                     if "f" in e:
@@ -182,44 +341,18 @@ class Origins:
                     elif "v" in e:
                         out.add(("variant", e["v"]))
                     elif "i" in e:
-                        out |= local_labels(e["i"], stack)
+                        out |= local_labels(e["i"])
             if "*" in p_["p"]:
                 for base in self.alias[p_["l"]]:
-                    out |= local_labels(base, stack)
-            return out
-
-        def operand(op, stack):
-            pl = op_place(op)
-            if pl is not None:
-                return place(pl, stack)
-            return self.of_operand(op)
-
-        def rvalue(rv, b_, stack):
-            k = rv["k"]
-            out = set()
-            if k in ("use", "repeat", "cast", "bin", "un", "agg"):
-                if k == "cast":
-                    out.add(("cast", rv["cast"], rv["from"], rv["to"]))
-                elif k == "bin":
-                    out.add(("bin", rv["op"]))
-                elif k == "un":
-                    out.add(("un", rv["op"]))
-                elif k == "agg":
-                    out.add(("agg", rv.get("adt"), rv.get("variant"), b_))
-                for o_ in rv["ops"]:
-                    out |= operand(o_, stack)
-            elif k in ("ref", "rawptr"):
-                out |= place(rv["place"], stack)
-            elif k == "discr":
-                out.add(("discr",))
-                out |= place(rv["place"], stack)
-            else:
-                out.add(("other",))
+                    out |= local_labels(base)
             return out
 
         if "l" in op_or_place and "p" in op_or_place:
-            return place(op_or_place, frozenset())
-        return operand(op_or_place, frozenset())
+            return place(op_or_place)
+        pl = op_place(op_or_place)
+        if pl is not None:
+            return place(pl)
+        return self.of_operand(op_or_place)
 
     def _place_labels(self, p):
         out = set(self.lab[p["l"]])
